@@ -1,6 +1,7 @@
 SPECIFICATION TSpec
 CONSTANTS
   Layouts = {10, 20, 30, 11, 21, 22}
+  Excs = {"hardware", "other"}
 CONSTRAINT Track
 POSTCONDITION Verdicts
 CHECK_DEADLOCK FALSE
